@@ -232,6 +232,16 @@ impl Proj {
 
 pub const INJECTED_TYPES: &[&str] = &["AppHandle", "tauri::AppHandle", "State<'_, AppState>", "tauri::State<'_, AppState>", "tauri::Window", "WebviewWindow", "tauri::ipc::Request<'_>"];
 pub const VALIDATE_POOL_STR: &[&str] = &["length(min = 1)", "length(min = 2, max = 40)", "email", "url", "length(max = 10, message = \"too long\")", "length(min = 1, message = \"Name fehlt – bitte ausfüllen\")", "length(min = 3, message = \"say \\\"hi\\\"\")"];
+/// messages with control characters (legal unescaped in a JavaScript string literal) and with
+/// words a template-filling renderer could mistake for placeholders; drawn after everything else
+pub const VALIDATE_POOL_LATE: &[&str] = &[
+    "length(min = 1, message = \"esc \\u{1b}[1m bold \\u{7} bell\")",
+    "length(max = 30, message = \"form\\u{c}feed, nel \\u{85}, del \\u{7f}\")",
+    "length(min = 2, max = 8, message = \"between {min} and {max} {opts}\")",
+    "range(min = 1, max = 9, message = \"vt \\u{b} and esc \\u{1b}\")",
+    "range(min = 0, message = \"at least {min}, at most {max}\")",
+    "email(message = \"nul-free \\u{1} start\")",
+];
 pub const VALIDATE_POOL_NUM: &[&str] = &["range(min = 1, max = 100)", "range(min = 0)", "range(max = 9.5)", "range(min = 18, message = \"must be an adult\")", "range(min = -10, max = 10)", "range(min = 1, message = \"pick a \\\"small\\\" level\")", "range(max = 5, message = \"back\\\\slash – ünï\")", "range(min = 0, max = 9, message = \"line\\nbreak\")"];
 
 /// Generate a project. With `safe`, input classes with known defects of *other* properties are
@@ -670,6 +680,35 @@ pub fn random_project(t: &mut Tape, safe: bool, avoided: &mut u64) -> Proj {
     let qualify = t.chance(1, 3);
     if qualify {
         features.insert("has=qualified_paths".into());
+    }
+    // later additions draw after everything else, so that the meaning of earlier tape values
+    // stays what it was (an exhausted tape yields 0 = nothing added)
+    if !safe && t.pick(2) == 1 {
+        let late = *t.choose(VALIDATE_POOL_LATE);
+        let numeric = late.starts_with("range");
+        'outer: for s in structs.iter_mut() {
+            for f in s.fields.iter_mut() {
+                let fits = match &f.ty {
+                    Ty::Prim("String") => !numeric,
+                    Ty::Prim(p) => numeric && crate::gen::ty::NUMERIC.contains(p),
+                    _ => false,
+                };
+                if fits && !f.skip {
+                    f.validate = Some(late.to_string());
+                    features.insert("has=validator".into());
+                    features.insert("has=late_validator_message".into());
+                    break 'outer;
+                }
+            }
+        }
+        if !features.contains("has=late_validator_message") {
+            if let Some(s) = structs.iter_mut().find(|s| !s.unit && !s.fields.iter().any(|f| f.name == "late_note" || f.name == "late_level")) {
+                let (name, ty) = if numeric { ("late_level", Ty::Prim("i32")) } else { ("late_note", Ty::Prim("String")) };
+                s.fields.push(FieldM { name: name.into(), ty, rename: None, skip: false, validate: Some(late.to_string()) });
+                features.insert("has=validator".into());
+                features.insert("has=late_validator_message".into());
+            }
+        }
     }
     Proj { n_files, structs, enums, commands, cfg, features, qualify }
 }
